@@ -392,19 +392,21 @@ XFORMS = [
     ('rvn+nasa+flatten', dict(order='F')),
     ('rvn+nasa+flatten', dict(order='C')),
 ]
-PARTIAL_2D = {'col', 'row'}
-
-
 def applicable(xf, sw):
-    if xf == 'rvd' and sw.get('ctx') == 'loop_same_range':
+    if xf == 'rvd' and (sw.get('ctx') == 'loop_same_range' or sw.get('live_index')):
+        # the dimension's index variable is reserved for the horizontal loop in single-column code: neither a vector
+        # statement inside a loop over it nor another use of it as a live scalar is meaningful input
         return False
     if 'nasa' in xf and sw.get('lbound_use') and (sw.get('lb_l') in (0, -1) or sw.get('lb_r') in (0, -1)):
         return False    # re-basing an array at 1 changes LBOUND/UBOUND by design
+    if 'flatten' in xf and (sw.get('call_section') or sw.get('call_full')):
+        return False    # partial sections of a rank-2 array as actual arguments cannot be expressed on flat storage
     if xf == 'nasa+flatten':
-        # flat storage cannot express partial sections of a rank-2 array: these go through rvn first
-        if sw.get('lhs') in PARTIAL_2D or sw.get('call_section') or sw.get('call_full') or sw.get('dup_dims'):
+        # ... nor can partial rank-2 sections in assignments: these go through resolve_vector_notation first
+        lhs, rhs = sw.get('lhs'), sw.get('rhs')
+        if lhs in ('col', 'row', 'all2x') or sw.get('dup_dims'):
             return False
-        if sw.get('lhs') == 'all2x':
+        if lhs == 'all2' and rhs not in ('colon', 'scalar'):
             return False
     return True
 
@@ -544,6 +546,9 @@ PREFIX = {'rvn+nasa+flatten': ['rvn()', 'nasa()'], 'nasa+flatten': ['nasa()'], '
 _RVN0 = 'rvn(resolve_implicit_rhs_ranges=True)'
 
 
+VIOLATING = ('loki-exception', 'xform-compile-error', 'xform-run-error', 'output-differs')
+
+
 def sigfn(results_by_id):
     def fails_same(pid, verdict):
         r = results_by_id.get(pid)
@@ -551,20 +556,22 @@ def sigfn(results_by_id):
 
     def sig(case, r):
         swid, xf = case['id'].split('|', 1)
-        fam = case['xform']
-        # a pipeline failing exactly as one of its stages alone fails on the same program is that stage's finding
+        fam, verdict = case['xform'], r['verdict']
+        # a pipeline whose earlier stage alone already fails on the same program is that stage's finding
+        # (the later stages only change how the damage shows)
         for stage in PREFIX.get(fam, ()):
             stage_id = _RVN0 if stage == 'rvn()' else stage
-            if fails_same(f'{swid}|{stage_id}', r['verdict']):
-                fam, xf = stage.split('(')[0], stage_id
+            sr = results_by_id.get(f'{swid}|{stage_id}')
+            if sr is not None and sr['verdict'] in VIOLATING:
+                fam, xf, verdict = stage.split('(')[0], stage_id, sr['verdict']
                 break
         # a failing single-switch case explains multi-switch cases that contain the switch (same xform, same verdict)
-        if fails_same(f'default|{xf}', r['verdict']):
-            return f'{r["verdict"]} block=default xform={fam}'
+        if fails_same(f'default|{xf}', verdict):
+            return f'{verdict} block=default xform={fam}'
         for s in case['switches']:
-            if fails_same(f'{s}|{xf}', r['verdict']):
-                return f'{r["verdict"]} block={s} xform={fam}'
-        return f'{r["verdict"]} blocks={"+".join(case["switches"]) or "default"} xform={fam}'
+            if fails_same(f'{s}|{xf}', verdict):
+                return f'{verdict} block={s} xform={fam}'
+        return f'{verdict} blocks={"+".join(case["switches"]) or "default"} xform={fam}'
     return sig
 
 
